@@ -1,7 +1,7 @@
 #!/usr/bin/env python3
 """Evaluate seeded changes (mutants) on scratch copies, never in /repo.
 
-  tools/evalmut.py <candidate-dir> [<candidate-dir> ...] [--slot N] [--props C01,C02] [--tier quick]
+  tools/evalmut.py <candidate-dir> [<candidate-dir> ...] [--slot N] [--props C01,C02] [--tier quick] [--lanes asan,miri]
 
 A candidate dir holds patch.diff, demo.rs, meta.json (as written by a sub-agent). For each one:
   1. confirm, in a scratch worktree of /repo: the patch applies, the crate's 82 tests pass with it,
@@ -87,13 +87,16 @@ def confirm(wt, cand):
     return res
 
 
+LANES = None
+
+
 def run_check(base, wt, h, prop, tier, seed):
     env = dict(os.environ, VERIF_HARNESS=h, VERIF_REPO=wt, VERIF_OUT=base + "/out", VERIF_SEED=str(seed), CARGO_NET_OFFLINE="true")
     os.makedirs(base + "/out", exist_ok=True)
     # make sure the worker is rebuilt against the patched sources (never trust mtimes alone)
     for prof in (["--profile", "checked"], ["--release"]):
         sh(["cargo", "clean", "--offline", "-p", "mila"] + prof, cwd=h, env=env)
-    rc, out = sh([VERIF + "/check", prop, "--tier", tier], cwd=VERIF, env=env, timeout=7200)
+    rc, out = sh([VERIF + "/check", prop, "--tier", tier] + (["--lanes", LANES] if LANES else []), cwd=VERIF, env=env, timeout=14400)
     sigs = []
     try:
         ev = json.load(open(base + "/out/evidence/%s.json" % prop))
@@ -120,6 +123,9 @@ def main():
             tier = args[i + 1]; i += 1
         elif args[i] == "--props":
             props = args[i + 1].split(","); i += 1
+        elif args[i] == "--lanes":
+            global LANES
+            LANES = args[i + 1]; i += 1
         elif args[i] == "--no-confirm":
             no_confirm = True
         elif args[i] == "--seed":
